@@ -343,6 +343,7 @@ def run(ctx: Any, prog: Program) -> None:
     n_slots = 4
     # `header = (a, b, c, d)` in each branch, then `defer.set_data(lump_name, *header)`: every such tuple is a header as written
     hdr_sites: List[Tuple[ast.AST, List[ast.AST]]] = []
+    forced_flag: Dict[int, bool] = {}
     for n in walk_no_nested(sv):
         if isinstance(n, ast.Call) and dotted(n.func) == 'defer.set_data' and len(n.args) == 5 and isinstance(n.args[0], ast.Name) and n.args[0].id in sv_loop_vars:
             hdr_sites.append((n, list(n.args[1:])))
@@ -352,6 +353,20 @@ def run(ctx: Any, prog: Program) -> None:
                 if isinstance(a_, ast.Assign) and any(dotted(t_) == n.args[1].value.id for t_ in a_.targets) and isinstance(a_.value, ast.Tuple) and len(a_.value.elts) == 4 and a_.lineno < n.lineno:
                     # only the definitions that can reach this call: same enclosing loop body
                     hdr_sites.append((a_, list(a_.value.elts)))
+                # `header = (v, o, l, f) if <L4D2 test> else (o, l, v, f)`: one site per arm, the arm says which layout it is
+                if isinstance(a_, ast.Assign) and any(dotted(t_) == n.args[1].value.id for t_ in a_.targets) and isinstance(a_.value, ast.IfExp) and a_.lineno < n.lineno \
+                        and all(isinstance(x_, ast.Tuple) and len(x_.elts) == 4 for x_ in (a_.value.body, a_.value.orelse)):
+                    t_ie = a_.value.test
+                    pol_ie = True
+                    if isinstance(t_ie, ast.UnaryOp) and isinstance(t_ie.op, ast.Not):
+                        t_ie, pol_ie = t_ie.operand, False
+                    if isinstance(t_ie, ast.Compare) and len(t_ie.ops) == 1 and isinstance(t_ie.ops[0], (ast.Is, ast.IsNot, ast.Eq, ast.NotEq)) and 'L4D2' in U(t_ie):
+                        if isinstance(t_ie.ops[0], (ast.IsNot, ast.NotEq)):
+                            pol_ie = not pol_ie
+                        forced_flag[id(a_.value.body)] = pol_ie
+                        forced_flag[id(a_.value.orelse)] = not pol_ie
+                        hdr_sites.append((a_.value.body, list(a_.value.body.elts)))
+                        hdr_sites.append((a_.value.orelse, list(a_.value.orelse.elts)))
     # `is_l4d2 = self.game_ver is GameVersion.L4D2`, assigned once: a test of the bare name is that test
     l4d2_locals = set()
     _assigned: Dict[str, List[ast.AST]] = {}
@@ -370,8 +385,8 @@ def run(ctx: Any, prog: Program) -> None:
             cur = n
             if isinstance(p, ast.Expr):
                 cur, p = p, bsp.parents.get(p)
-            is_l4d2 = None
-            while p is not None and p is not sv:
+            is_l4d2 = forced_flag.get(id(n))
+            while p is not None and p is not sv and is_l4d2 is None:
                 if isinstance(p, ast.If) and ('L4D2' in U(p.test) or (isinstance(p.test, ast.Name) and p.test.id in l4d2_locals)):
                     is_l4d2 = cur in p.body or any(cur is x for s in p.body for x in ast.walk(s))
                     break
